@@ -310,6 +310,37 @@ example : AdjSym demoMol.adj ∧ (gAddBond demoMol 1 3 1).toOption.isSome ∧ (g
   rcases ha with ⟨rfl, rfl⟩ | ⟨rfl, rfl⟩ | ⟨rfl, rfl⟩ <;> simp at hb <;>
     (try rcases hb with ⟨rfl, rfl⟩ | ⟨rfl, rfl⟩) <;> (try obtain ⟨rfl, rfl⟩ := hb) <;> simp_all [demoMol]
 
+/-- **copies_noninterference**: whatever sequence of operations is applied to *other* objects — in particular to a copy,
+a substructure or a union made from object `j`, including operations that read `j` (`union`), create further objects or
+fail — object `j` stays exactly as it was: atoms, bonds, stored hydrogens and labels, cache, name, meta, pending set,
+snapshot (all tables, all `obs`). -/
+theorem copies_noninterference (T : Tables) (h : List (Op × List String)) :
+    ∀ (w : World) (j : Nat) (o : Obj), w.objs[j]? = some o → (∀ x ∈ h, x.1.target ≠ j) →
+      (runHist T w h).objs[j]? = some o := by
+  induction h with
+  | nil => intro w j o hj _; exact hj
+  | cons x rest ih =>
+    intro w j o hj hne
+    obtain ⟨op, obs⟩ := x
+    simp only [runHist]
+    have hlt : j < w.objs.length := by
+      rcases Nat.lt_or_ge j w.objs.length with hl | hl
+      · exact hl
+      · rw [List.getElem?_eq_none hl] at hj; cases hj
+    refine ih _ j o ?_ (fun y hy => hne y (List.mem_cons_of_mem _ hy))
+    rw [step_frame T w op obs j (Ne.symm (hne (op, obs) List.mem_cons_self)) hlt]
+    exact hj
+
+/-- non-vacuous: copy propan-1-ol, then edit, renumber, extend and abort a transaction on the copy — the original is
+untouched while the copy really changed -/
+example :
+    let w0 := (step current (freshWorld demoMol) (.copy 0 false false) []).w
+    let h : List (Op × List String) := [(.addBond 1 1 3 1 false, []), (.remap 1 [(1, 7)], []), (.union 1 0 true false, []),
+      (.enter 1, []), (.delAtom 1 2 false, []), (.exitExc 1, []), (.setCharge 1 3 1, [])]
+    (∀ x ∈ h, x.1.target ≠ 0) ∧ (runHist current w0 h).objs[0]? = w0.objs[0]? ∧
+      ((runHist current w0 h).objs.map fun o => o.mol.ids) = [[1, 2, 3], [7, 2, 3, 8, 9, 10]] := by
+  decide +kernel
+
 /-! ## the stored graph is well-formed in every reachable state -/
 
 /-- today's regenerated table restores `_atoms` and `_bonds` together in every method `step` runs -/
